@@ -47,11 +47,14 @@ type WriteCase struct {
 	// ROGitIgnore: the existing .gitignore files cannot be written by the user running spok: --init
 	// may fail to append, it may not damage or remove them
 	ROGitIgnore bool `json:"ro_gitignore,omitempty"`
+	// InitUnlistable: `spok --init` in nested/dir, which already holds a spokfile and whose mode is 0300
+	// (its owner may enter it and create files, not list it): the existing spokfile stays as it is
+	InitUnlistable bool `json:"init_unlistable,omitempty"`
 }
 
 var writeTreePool = []string{"main.go", "pkg/a.go", "pkg/sub/b.go", "docs/readme.md", "nested/dir/x.txt", "Makefile", "data/", "nested/.hidden", "spokfile.tmp", "spokfile.bak", ".spokfile.swp", "spokfile~"}
 var writeFlags = []string{"--show", "--vars", "--fmt", "--init", "--force", "--quiet", "--json", "--debug"}
-var safeCmds = []string{"echo hi", "true", "printf x", "echo {{.V}}", "echo a b  c", "test -f main.go", "echo done 1>&2"}
+var safeCmds = []string{"echo hi", "true", "printf x", "echo {{.V}}", "echo a b  c", "test -f main.go", "echo done 1>&2", "printf 'working\rdone'"}
 var invalidSources = map[string][]string{
 	"lexerr":   {"task build( {\n", "X := \"unterminated\n", "task t() {\n    echo hi\n", "$$$\n", "task t() -> {\n}\n"},
 	"parseerr": {"X :=\n", "X\n", "task t(\"a\" \"b\") -> (,", "task () -> (\n"},
@@ -139,6 +142,9 @@ func genWrite(t *rapid.T) WriteCase {
 		}
 		c.Prior, c.EditDep, c.Nested = 0, false, true
 	}
+	if hasFlag(c.Flags, "--init") && !c.InitElsewhere && rapid.IntRange(0, 3).Draw(t, "init_unlistable") == 0 {
+		c.InitUnlistable, c.Nested = true, true
+	}
 	c.ProjDir = genProjDir(t)
 	c.ROGitIgnore = c.GitIgnore != nil && rapid.IntRange(0, 3).Draw(t, "ro_gitignore") == 0
 	nt := rapid.IntRange(0, 2).Draw(t, "ntasks")
@@ -196,6 +202,13 @@ func execWrite(s *ev.Shard, b *sandbox.Box, c WriteCase) *rp.Fail {
 			return &rp.Fail{Sig: "harness", Msg: err.Error()}
 		}
 		_ = os.Lchown(lp, 65534, 65534)
+	}
+	if c.InitUnlistable {
+		nd := filepath.Join(b.Proj, "nested", "dir")
+		_ = os.WriteFile(filepath.Join(nd, "spokfile"), []byte("# keep me\ntask keep() {\n    true\n}\n"), 0o644)
+		_ = os.Lchown(filepath.Join(nd, "spokfile"), 65534, 65534)
+		_ = os.Chmod(nd, 0o300)
+		defer os.Chmod(nd, 0o755)
 	}
 	if c.ROGitIgnore {
 		_ = os.Chmod(filepath.Join(b.Proj, ".gitignore"), 0o444)
